@@ -1091,6 +1091,7 @@ def sweep(ctx, big):
             if r is not None:
                 ctx.impl_fail(f"{r[0]}/{owner_of(make, attr)}.{attr}:own-array", f"{cls_name}.{attr}: {r[1]}",
                               {"kind": "own-array", "class": cls_name, "attr": attr, "clause": r[0]})
+    none_contexts(ctx)
     for rep_i in range(ctx.n(3, 20)):
         r = batch_case(rng)
         ctx.case(("batch", rep_i), True)
@@ -1277,6 +1278,87 @@ def batch_case(rng):
             return "computable", "batch of accepted objects: a row differs from the object's own getB", \
                 type(o).__name__
     return None
+
+
+# ---------------------------------------------------------------------- None in every calling context
+def complete_source():
+    return magpy.magnet.Sphere(diameter=1.0, polarization=(0.0, 0.0, 1.0), position=(7, 7, 7))
+
+
+OBS2 = np.array([(2.5, 3.5, 4.5), (-3.0, 2.0, 5.0)])
+NONE_CONTEXTS = {
+    "obj.getB": lambda o: o.getB(OBS2),
+    "obj.getH": lambda o: o.getH(OBS2),
+    "getB([obj])": lambda o: magpy.getB([o], OBS2),
+    "getB([complete,obj])": lambda o: magpy.getB([complete_source(), o], OBS2),
+    "getH([obj,complete],sumup)": lambda o: magpy.getH([o, complete_source()], OBS2, sumup=True),
+    "Sensor.getB(obj)": lambda o: magpy.Sensor(pixel=OBS2).getB(o),
+    "Collection(obj).getB": lambda o: magpy.Collection(o).getB(OBS2),
+    "Collection(complete,obj).getH": lambda o: magpy.Collection(complete_source(), o).getH(OBS2),
+    "getH(Collection(complete,obj))": lambda o: magpy.getH(magpy.Collection(complete_source(), o), OBS2),
+    "getB([Collection(obj),complete])": lambda o: magpy.getB([magpy.Collection(o), complete_source()], OBS2),
+    "Sensor.getB(Collection(complete,Collection(obj)))":
+        lambda o: magpy.Sensor(pixel=OBS2).getB(magpy.Collection(complete_source(), magpy.Collection(o))),
+    "Collection(Collection(Collection(obj)),complete).getB":
+        lambda o: magpy.Collection(magpy.Collection(magpy.Collection(o)), complete_source()).getB(OBS2),
+    "getM(Collection(Collection(obj)))": lambda o: magpy.getM(magpy.Collection(magpy.Collection(o)), OBS2),
+    "getB(Collection(obj,sensor),sensor)":
+        lambda o: magpy.getB(magpy.Collection(o, magpy.Sensor(position=(0, 0, 3))), magpy.Sensor(pixel=OBS2)),
+}
+
+
+def none_object(cls_name, attr, via):
+    """an accepted object that carries the documented None in attr"""
+    if via == "ctor":
+        return make_obj(cls_name, (attr, None))
+    o = make_obj(cls_name)
+    o.getB(OBS2)                    # the complete object computes
+    setattr(o, attr, None)
+    return o
+
+
+def none_context_case(cls_name, attr, via, ctx_name):
+    """returns None or a description of the internal error"""
+    try:
+        o = none_object(cls_name, attr, via)
+    except Exception:               # pylint: disable=broad-except
+        return None                 # a rejected None is the business of the assignment clauses
+    try:
+        out = np.asarray(NONE_CONTEXTS[ctx_name](o), dtype=float)
+        if out.shape[-1:] != (3,):
+            return f"returned shape {out.shape}"
+    except LIB_ERRORS + (ProbeError,):
+        return None
+    except Exception as e:          # pylint: disable=broad-except
+        return f"raised {type(e).__name__}: {str(e)[:100]}"
+    return None
+
+
+def none_contexts(ctx):
+    """every source class x every attribute whose documented value may be None x {constructor, setter} x every way of
+    handing the object to a field computation (alone, in lists, in collections of depth 1..3, from a Sensor): a
+    result or the library's own error, never an internal one"""
+    for cls_name, (make, _, attrs) in get_specs().items():
+        if cls_name in ("Sensor", "Collection", "Collection2"):
+            continue
+        for attr, doc in attrs.items():
+            if attr in ("position", "orientation") or doc_valid(doc, {"k": "none"}) is not True:
+                continue
+            for via in ("ctor", "setter"):
+                if via == "setter" and (cls_name, attr) in CTOR_ONLY:
+                    continue
+                for cname in NONE_CONTEXTS:
+                    p = none_context_case(cls_name, attr, via, cname)
+                    ctx.case(("none-context", cls_name, attr, via, cname), True)
+                    ctx.bump("search:none-context")
+                    if p:
+                        depth = cname.count("Collection(")
+                        cat = "nested-collection" if depth >= 2 else "collection" if depth == 1 else \
+                            "list" if "[" in cname else "direct"
+                        ctx.impl_fail(f"computable/{owner_of(make, attr)}.{attr}:None@{cat}",
+                                      f"{cls_name}.{attr} = None ({via}), then {cname}: {p}",
+                                      {"kind": "none-context", "class": cls_name, "attr": attr, "via": via,
+                                       "context": cname, "clause": "computable"})
 
 
 def describe(v):
@@ -1550,6 +1632,14 @@ def run(ctx):
 
 def replay(ctx, obj):
     rp = obj.get("replay", obj)
+    if rp.get("kind") == "none-context":
+        p = none_context_case(rp["class"], rp["attr"], rp["via"], rp["context"])
+        if p:
+            print(f"replay: FAILS [computable] {rp['class']}.{rp['attr']} = None ({rp['via']}), {rp['context']}: {p}")
+            print(f"VIOLATION property=C17 replay={obj.get('how_to_rerun', '').split()[-1] or 'given'}")
+            return 1
+        print("replay: property holds on this input")
+        return 0
     if rp.get("kind") in ("history", "own-array", "batch"):
         import random      # pylint: disable=import-outside-toplevel
         r = history_case(rp["class"], rp["attr"]) if rp["kind"] == "history" else \
